@@ -281,6 +281,41 @@ def history_apply(run, ids, req):
                         history.append(q)
 
 
+def returned_lists(run, ids, req, opt):
+    """autosort / available hand out lists that are the caller's: editing a
+    returned list in place must not change what the next call returns"""
+    from nanite import preproc
+    sels = [list(ids), list(reversed(ids))] + [
+        list(s) for s in itertools.permutations(ids, 3)][:20]
+    for sel in sels:
+        if impl_autosort(sel)[0] != "ok":
+            continue
+        run.case({"returned-list": sel}, kind="returned-list")
+        r1 = preproc.autosort(list(sel))
+        want = list(r1)
+        for edit in ("pop", "reverse", "clear"):
+            r = preproc.autosort(list(sel))
+            getattr(r, edit)()
+            r2 = preproc.autosort(list(sel))
+            if list(r2) != want:
+                run.failing(SITE_SORT, "returned-list:" + ",".join(sel),
+                            f"autosort({sel}) returns {list(r2)} after the "
+                            f"list returned by an earlier call was edited in "
+                            f"place ({edit}); before: {want}",
+                            payload={"kind": "rerun"},
+                            theorem="C14_autosort_permutation")
+                break
+    av = list(preproc.available())
+    a = preproc.available()
+    a.pop()
+    run.case({"returned-list": "available"}, kind="returned-list")
+    if list(preproc.available()) != av:
+        run.failing(SITE_AVAIL, "returned-list:available",
+                    "available() changed after the list it returned was "
+                    "edited in place", payload={"kind": "rerun"},
+                    theorem="C14_available_valid")
+
+
 def check(run):
     from nanite import preproc
     run.sources = common.source_digests(["src/nanite/preproc.py"])
@@ -345,6 +380,7 @@ def check(run):
                           "apply": im[2]}, nontrivial=len(lst) >= 2, kind=kind)
                 oracle(run, lst, im, ids, req, opt)
     history_apply(run, ids, req)
+    returned_lists(run, ids, req, opt)
     # available() itself
     av = preproc.available()
     if sorted(av) != sorted(ids) or not decl_ordered(av, req, opt):
